@@ -288,6 +288,13 @@ def gen_unsolicited(tier, seed):
 
 
 def suites(tier, seed):
+    # (the batch suites of C20 - every order of a server close, channel closes and requests in one
+    #  batch of events, stale wake-ups included: the loop ends with the server's close as root cause)
+    c20 = __import__("props.c20", fromlist=["x"])
+    return [s_ for s_ in c20.suites(tier, seed) if s_.name in ("batches", "crossing-channel-closes")] + _own_suites(tier, seed)
+
+
+def _own_suites(tier, seed):
     import apigen
     return [
         Suite("exception-texts", "machine", lambda: __import__("props.c07", fromlist=["x"]).gen_exc_text(tier, seed), monitor=__import__("props.c07", fromlist=["x"]).monitor, nontrivial=lambda c, il: True, canon=mg.canon_nondet, candidate_ok=mg.candidate_ok,
